@@ -71,6 +71,10 @@ class _AddOrRemoveNotifier:
         # list of (notifier, observable)
         self._processed = []
 
+        # list of (object, graph): completed walks of child graphs and extra
+        # graphs, to be walked in the opposite direction if a later step fails
+        self._walked = []
+
     def __call__(self):
         """ Main function for adding/removing notifiers.
         """
@@ -94,6 +98,16 @@ class _AddOrRemoveNotifier:
                 step()
         except Exception:
             # Undo and then reraise
+            while self._walked:
+                object, graph = self._walked.pop()
+                add_or_remove_notifiers(
+                    object=object,
+                    graph=graph,
+                    handler=self.handler,
+                    target=self.target,
+                    dispatcher=self.dispatcher,
+                    remove=not self.remove,
+                )
             while self._processed:
                 notifier, observable = self._processed.pop()
                 if self.remove:
@@ -103,6 +117,7 @@ class _AddOrRemoveNotifier:
             raise
         else:
             self._processed.clear()
+            self._walked.clear()
 
     def _add_or_remove_extra_graphs(self):
         """ Add or remove additional ObserverGraph contributed by the root
@@ -117,6 +132,7 @@ class _AddOrRemoveNotifier:
                 dispatcher=self.dispatcher,
                 remove=self.remove,
             )
+            self._walked.append((self.object, extra_graph))
 
     def _add_or_remove_children_notifiers(self):
         """ Recursively add or remove notifiers for the children ObserverGraph.
@@ -131,6 +147,7 @@ class _AddOrRemoveNotifier:
                     dispatcher=self.dispatcher,
                     remove=self.remove,
                 )
+                self._walked.append((next_object, child_graph))
 
     def _add_or_remove_maintainers(self):
         """ Add or remove notifiers for maintaining children notifiers when
